@@ -304,9 +304,34 @@ func (it *Interp) methodOf(recvType types.Type, name string) *ssa.Function {
 	if n, ok := derefNamed(recvType); ok {
 		pkg = n.Obj().Pkg()
 	}
-	m := it.prog.LookupMethod(recvType, pkg, name)
+	m := it.safeLookup(recvType, pkg, name)
 	if m == nil {
 		it.inconclusive("method " + name + " not found on " + recvType.String())
 	}
 	return m
+}
+
+
+// safeLookup is prog.LookupMethod that returns nil instead of panicking when the method does not exist.
+func (it *Interp) safeLookup(t types.Type, pkg *types.Package, name string) *ssa.Function {
+	sel := it.prog.MethodSets.MethodSet(t).Lookup(pkg, name)
+	if sel == nil && pkg == nil {
+		if n, ok := derefNamed(t); ok && n.Obj().Pkg() != nil {
+			sel = it.prog.MethodSets.MethodSet(t).Lookup(n.Obj().Pkg(), name)
+		}
+	}
+	if sel == nil {
+		return nil
+	}
+	return it.prog.MethodValue(sel)
+}
+
+// Assume is the engine-side vAssume: ends the path when the assumption is infeasible.
+func (it *Interp) Assume(c *Term) { harnessAPI["vAssume"](it, nil, []Value{c}) }
+
+
+// callReal calls fn's real body from inside a stub registered for fn (observation wrappers).
+func (it *Interp) callReal(fn *ssa.Function, args []Value) Value {
+	it.skipStub = fn
+	return it.call(fn, args, nil)
 }
